@@ -15,9 +15,7 @@ use crate::storage::Storable;
 
 use akd_core::SizeOf;
 use dashmap::DashMap;
-#[cfg(feature = "runtime_metrics")]
-use std::sync::atomic::AtomicU64;
-use std::sync::atomic::{AtomicBool, Ordering};
+use std::sync::atomic::{AtomicBool, AtomicU64, Ordering};
 use std::sync::Arc;
 use std::time::{Duration, Instant};
 use tokio::sync::RwLock;
@@ -30,6 +28,8 @@ pub struct TimedCache {
     map: Arc<DashMap<Vec<u8>, CachedItem>>,
     last_clean: Arc<RwLock<Instant>>,
     can_clean: Arc<AtomicBool>,
+    /// Counts the writes (put / batch_put) which went through this cache, see [TimedCache::fill]
+    write_generation: Arc<AtomicU64>,
     item_lifetime: Duration,
     memory_limit_bytes: Option<usize>,
     clean_frequency: Duration,
@@ -141,6 +141,7 @@ impl TimedCache {
             map: Arc::new(DashMap::new()),
             last_clean: Arc::new(RwLock::new(Instant::now())),
             can_clean: Arc::new(AtomicBool::new(true)),
+            write_generation: Arc::new(AtomicU64::new(0u64)),
             item_lifetime: lifetime,
             memory_limit_bytes: o_memory_limit_bytes,
             clean_frequency,
@@ -191,6 +192,7 @@ impl TimedCache {
 
     /// Put an item into the cache.
     pub async fn put(&self, record: &DbRecord) {
+        self.write_generation.fetch_add(1, Ordering::SeqCst);
         self.clean().await;
 
         let key = record.get_full_binary_id();
@@ -210,6 +212,7 @@ impl TimedCache {
 
     /// Put a batch of items into the cache, utilizing a single write lock.
     pub async fn batch_put(&self, records: &[DbRecord]) {
+        self.write_generation.fetch_add(1, Ordering::SeqCst);
         self.clean().await;
 
         for record in records.iter() {
@@ -223,6 +226,49 @@ impl TimedCache {
                     data: record.clone(),
                 };
                 self.map.insert(key, item);
+            }
+        }
+    }
+
+    /// The current write generation: to be taken BEFORE reading from the database a value which
+    /// is going to be passed to [TimedCache::fill].
+    pub fn write_generation(&self) -> u64 {
+        self.write_generation.load(Ordering::SeqCst)
+    }
+
+    /// Put items which were READ from the database into the cache. A read takes time: by the time
+    /// its result arrives, a write (which always goes through [TimedCache::put] or
+    /// [TimedCache::batch_put]) may have stored newer versions of the records, and the older read
+    /// results must not replace them. Therefore nothing is cached if a write went through the cache
+    /// since `read_generation` was taken, and an unexpired entry is never replaced.
+    pub async fn fill(&self, records: &[DbRecord], read_generation: u64) {
+        self.clean().await;
+
+        for record in records.iter() {
+            if self.write_generation() != read_generation {
+                return;
+            }
+            if let DbRecord::Azks(azks_ref) = &record {
+                let mut azks_guard = self.azks.write().await;
+                if azks_guard.is_none() {
+                    *azks_guard = Some(DbRecord::Azks(azks_ref.clone()));
+                }
+            } else {
+                let now = Instant::now();
+                let item = CachedItem {
+                    expiration: now + self.item_lifetime,
+                    data: record.clone(),
+                };
+                match self.map.entry(record.get_full_binary_id()) {
+                    dashmap::mapref::entry::Entry::Occupied(mut occupied) => {
+                        if occupied.get().expiration <= now {
+                            occupied.insert(item);
+                        }
+                    }
+                    dashmap::mapref::entry::Entry::Vacant(vacant) => {
+                        vacant.insert(item);
+                    }
+                }
             }
         }
     }
